@@ -58,6 +58,17 @@ def scope_family():
                 out += [(q, 'x', da, body1 if q == 'bind' else ('jump', 'x', body1)), (q, 'x', da, body2 if q == 'bind' else ('jump', 'x', body2))]
     return out
 
+def triple_family():
+    """a one-variable duplicate occurring three times under every sequence of variable names (cache hits with renaming)"""
+    out = []
+    import itertools
+    for mk in (lambda v: ('EF', ('var', v)), lambda v: ('AX', ('and', ('var', v), W))):
+        for seq in itertools.product(['x', 'xx', 'xxx'], repeat=3):
+            if len(set(seq)) == 1: continue
+            body = ('and', mk(seq[0]), ('and', mk(seq[1]), ('EX', mk(seq[2]))))
+            out.append(('bind', 'x', None, ('exists', 'xx', None, ('forall', 'xxx', None, ('or', body, ('and', ('var', 'xxx'), ('not', ('var', 'xx'))))))))
+    return out
+
 VARS = ['x', 'xx', 'xxx']
 def psi_templates():
     """duplicate candidates with 0-2 free-variable slots ('$0', '$1'); some bind a variable of their own ('NEW')"""
@@ -130,6 +141,8 @@ def run(chk):
         tasks.append({'n': 2, 'k': max(1, S.quant_depth(f)), 'c': 0, 'entry': 'multi_ext_dirty', 'phis': [f], 'order_mode': 'global', 'timeout_ms': 300000 if thorough else 40000})
     ET.run_tasks(chk, 'C04', tasks, signature='batch')
     UC.run_family(chk, 'C04', [(['U2', 'C2'], scope_family())], entries=('ext_dirty', 'ext_multi_dirty'), signature='batch')
+    tf = triple_family()
+    UC.run_family(chk, 'C04', [(['U2'], tf if thorough else tf[::2])], entries=('ext_dirty',), signature='batch')
     e_uni(chk, fs + dupf, thorough, n_batches=60 if thorough else 14)
 
 def e_uni(chk, fs, thorough, n_batches=2):
